@@ -123,3 +123,11 @@ package vgirpc
 // the kind read when the mode was chosen is the kind at the dispatch.
 //
 //@ immutable methodInfo.Type
+
+// SetTokenTTL rebuilds the call cache for the new TTL at the size the operator configured (a
+// cache disabled with SetCallStateCacheEntries(0) stays disabled; repaired defect: it used to
+// come back at the default size).
+//
+//@ func (*HttpServer).SetTokenTTL
+//@   property C15
+//@   at call newCallStateCache assert [keepssize] arg1 == d && (old(h.callStates) == nil ==> arg0 == 4096) && (old(h.callStates) != nil ==> arg0 == old(h.callStates.max))
